@@ -533,6 +533,11 @@ def main():
                 a = run_prog([req(rp["templates"], rp["main"], rp["context"], True), req({"main.html": rp["body"]}, "main.html", rp["context"], True)], release=rel)
                 if "ok" in a[1].get("render", {}) and a[0].get("render") != a[1].get("render"):
                     viol.append(("printing a captured rendering does not reproduce it byte for byte (%s)" % rp.get("via"), rp))
+            elif kind == "filterblock":
+                rb = run_prog([req(rp["templates"], rp["main"], rp["context"])], release=rel)[0].get("render", {})
+                re_ = run_prog([req({"t.html": rp["expression_form"]}, "t.html", rp["context"])], release=rel)[0].get("render", {}) if rp.get("expression_form") else {}
+                if "ok" in rb and ((rp.get("leak") and has_meta(rb["ok"])) or ("ok" in re_ and rb["ok"] != re_["ok"])):
+                    viol.append(("a filter block prints unsafe data raw / differs from the expression form", rp))
             elif kind == "modes":
                 cargo_build(["c02"], release=rel)
                 got = engine_results(run_c02([{"templates": rp["templates"], "main": rp["main"], "ctx": rp["context"], "steps": rp.get("steps", [])}], release=rel)[0])
@@ -897,6 +902,52 @@ def main():
         else:
             crashes.append({"expression": tpl, "engine": json.dumps(r)[:160]})
     hist["C_filters"] = len(names)
+    # block form of every filter: {% filter f(args) %}BODY{% endfilter %} must print exactly what the expression form prints
+    # on the captured body ({% set zb %}BODY{% endset %}{{ zb|f(args) }}), and no raw metacharacter from an argument
+    FB_BODIES = ["", "abc", "{{ x }}", "a {{ cap }} b", "  {{ y }}-{{ n }}  "]
+    fb_cases = []
+    for f in names:
+        for a in ARGS + ["(x, true)", "('<none>', true)", "(y)", "(fmt)", "('%s', x)", "(sep, x)"]:
+            for bi, bd in enumerate(FB_BODIES):
+                blk = SWEEP_PRELUDE + "[{% filter " + f + a + " %}" + bd + "{% endfilter %}]"
+                exp = SWEEP_PRELUDE + "{% set zb %}" + bd + "{% endset %}[{{ zb|" + f + a + " }}]"
+                fb_cases.append((f, a, bd, blk, exp))
+    if not chk.thorough:
+        fb_cases = [c_ for i_, c_ in enumerate(fb_cases) if i_ % 2 == 0 or c_[1] in ("(x)", "(x, true)", "('<none>', true)", "(x, y)", "(n, x)", "(cap, x)")]
+    fb_reqs = []
+    for f, a, bd, blk, exp in fb_cases:
+        fb_reqs.append(req({"t.html": blk}, "t.html", SWEEP_CTX))
+        fb_reqs.append(req({"t.html": exp}, "t.html", SWEEP_CTX))
+    fb_bad = []
+    for rel in ((False, True) if chk.thorough else (False,)):
+        fb_out = run_prog(fb_reqs, release=rel)
+        for ci, (f, a, bd, blk, exp) in enumerate(fb_cases):
+            evaluations += 1
+            rb, re_ = fb_out[2 * ci].get("render", {}), fb_out[2 * ci + 1].get("render", {})
+            if "ok" in rb:
+                hist["C_filter_block_ok"] += 1
+                nontriv.add(("C-block", f, a, bd))
+                if "ok" in re_ and rb["ok"] != re_["ok"]:
+                    fb_bad.append((f, a, bd, blk, exp, rb["ok"], re_["ok"]))
+                elif has_meta(rb["ok"]) and f not in MARKUP_FILTERS:
+                    fb_bad.append((f, a, bd, blk, None, rb["ok"], None))
+            elif "err" in rb:
+                hist["C_filter_block_rejected"] += 1
+            else:
+                crashes.append({"expression": blk, "engine": json.dumps(fb_out[2 * ci])[:160]})
+    seen_fb = set()
+    for f, a, bd, blk, exp, got, want in fb_bad:
+        if f in seen_fb or len(seen_fb) >= 4:
+            continue
+        seen_fb.add(f)
+        leak = has_meta(got) and f not in MARKUP_FILTERS
+        what = ("a filter block lets a raw HTML metacharacter from unsafe data through: {%% filter %s%s %%}" % (f, a)) if leak else \
+               ("{%% filter %s%s %%} prints something else than the same filter applied to the captured body" % (f, a))
+        rp = {"kind": "filterblock", "templates": {"t.html": blk}, "main": "t.html", "context": SWEEP_CTX, "expression_form": exp,
+              "engine": got, "expression_form_prints": want, "leak": leak}
+        if leak or want is not None:
+            viol.append((what, rp))
+    log('[C02] filter blocks done %.1fs' % (time.time() - chk.t0))
     # pairs: every successful single invocation followed by every filter in a few argument shapes
     per = collections.OrderedDict()
     for fs, tpl in good_single:
